@@ -358,7 +358,8 @@ class InterpCore(object):
             return ep.app(("lookupval", v.key()), [])
         if isinstance(v, Unknown):
             return ep.app(("unknown", v.tag), [])
-        if isinstance(v, (FuncV, ClassV, ListV, DictV)) or (isinstance(v, Const) and (v.v is None or isinstance(v.v, str))):
+        if isinstance(v, (FuncV, ClassV, ListV, DictV, BufV, ModV)) or type(v).__name__ == "NTV" or is_strlike(v) \
+                or (isinstance(v, Const) and (v.v is None or isinstance(v.v, str))):
             # arithmetic / numeric conversion of something that is plainly not a number
             from .symeval_ops import ExcV
             raise RaiseSignal(ExcV(ExtV("builtins.TypeError"), [Const("a number is required, not %s" % type(v).__name__)]), node)
@@ -623,6 +624,13 @@ class InterpCore(object):
             return Cond("in", item, container)
         if isinstance(container, Const) and isinstance(container.v, str) and isinstance(item, Const):
             return item.v in container.v
+        if isinstance(container, StrV) and isinstance(item, Const) and isinstance(item.v, str) and item.v \
+                and all(ch in "\n\r\f\v" for ch in item.v):
+            # a line-break sequence inside text made of literals and formatted numbers: numbers never contain one
+            from .strtree import parts_of as _parts
+            parts = _parts(container.node)
+            if all(isinstance(p, SLit) or (isinstance(p, SFmt) and isinstance(p.value, Num)) for p in parts):
+                return any(isinstance(p, SLit) and item.v in p.text for p in parts)
         if type(container).__name__ == "SetAccV" and not container.adds:
             return self.contains(ListV(list(container.concrete), "set"), item, node)
         if type(container).__name__ == "PyObjV" and hasattr(container.obj, "contains"):
